@@ -118,9 +118,12 @@ func (w *shWorld) commit(good bool, email string) (string, error) {
 // originHead returns DATA token and BAD flag of the newest revision.
 func (w *shWorld) originHead() (token string, bad bool) {
 	origin := filepath.Join(w.dir, "origin.git")
-	out, _ := run(w.dir, w.env(), "git", "--git-dir", origin, "show", "master:DATA")
+	out, err := run(w.dir, w.env(), "git", "--git-dir", origin, "show", "master:DATA")
 	token = strings.TrimSpace(out)
-	_, err := run(w.dir, w.env(), "git", "--git-dir", origin, "cat-file", "-e", "master:BAD")
+	if err != nil {
+		token = "none" // the revision has no DATA file (what the stub compiler records, too)
+	}
+	_, err = run(w.dir, w.env(), "git", "--git-dir", origin, "cat-file", "-e", "master:BAD")
 	return token, err == nil
 }
 
@@ -309,6 +312,16 @@ func (c *Ctx) shRun(w *shWorld, n int, sched *tape.Tape, killAt *killPoint, hist
 		}
 		invs = append(invs, inv)
 	}
+	// A contender stays parked at its first command until the first
+	// invocation has made holdUntil[i] steps (tape-chosen), so that it can
+	// arrive at any phase of the holder's run.
+	holdUntil := make([]int, n)
+	var cur *shInv
+	if sched != nil {
+		for i := 1; i < n; i++ {
+			holdUntil[i] = sched.Next(160)
+		}
+	}
 	deadline := time.Now().Add(120 * time.Second)
 	live := func() int {
 		k := 0
@@ -393,11 +406,39 @@ func (c *Ctx) shRun(w *shWorld, n int, sched *tape.Tape, killAt *killPoint, hist
 		if len(ready) == 0 {
 			continue
 		}
+		// Contenders that are still held back are not ready.
+		if sched != nil && n > 1 {
+			var r2 []*shInv
+			for _, inv := range ready {
+				idx := 0
+				for i, x := range invs {
+					if x == inv {
+						idx = i
+					}
+				}
+				if idx > 0 && inv.steps == 0 && !invs[0].done && invs[0].steps < holdUntil[idx] {
+					continue
+				}
+				r2 = append(r2, inv)
+			}
+			if len(r2) > 0 {
+				ready = r2
+			}
+		}
 		inv := ready[0]
 		if len(ready) > 1 && sched != nil {
 			// Mostly let one run for a while, sometimes switch.
-			inv = ready[sched.Next(len(ready))]
+			stay := false
+			for _, x := range ready {
+				if x == cur && sched.Next(8) != 0 {
+					inv, stay = x, true
+				}
+			}
+			if !stay {
+				inv = ready[sched.Next(len(ready))]
+			}
 		}
+		cur = inv
 		r := inv.pending[0]
 		nc := normCmd(r.cmd)
 		inv.occ[nc]++
@@ -555,10 +596,37 @@ func c19Run(c *Ctx, tp *tape.Tape, extra map[string]any) *Failure {
 	if extra != nil && extra["kill"] != nil {
 		points = []killPoint{{fmt.Sprint(extra["kill"]), toInt(extra["occ"])}}
 	}
-	for pi, kp := range points {
-		if extra == nil && c.Quick && pi%6 != len(tp.Rec)%6 {
+	// The commands between a successful compile and the end of the run
+	// switch 'current': every one of them is a kill point in both tiers, with
+	// and without a further commit before the next run.
+	critical := map[int]bool{}
+	inSuccess := false
+	for i, t := range full.trace {
+		if t == "handle_success" {
+			inSuccess = true
+		}
+		if inSuccess {
+			critical[i] = true
+		}
+	}
+	type variant struct {
+		pi     int
+		commit bool
+	}
+	var todo []variant
+	for pi := range points {
+		if extra != nil {
+			todo = append(todo, variant{pi, extra["commit_after_kill"] == true})
 			continue
 		}
+		if critical[pi] {
+			todo = append(todo, variant{pi, false}, variant{pi, true})
+		} else if !c.Quick || pi%6 == len(tp.Rec)%6 {
+			todo = append(todo, variant{pi, (pi+len(tp.Rec))%3 == 0})
+		}
+	}
+	for _, tv := range todo {
+		pi, kp := tv.pi, points[tv.pi]
 		if c.TimeUp() {
 			break
 		}
@@ -581,6 +649,14 @@ func c19Run(c *Ctx, tp *tape.Tape, extra map[string]any) *Failure {
 		log2 := append(append([]string(nil), evlog...), fmt.Sprintf("kill -9 before %q (occurrence %d)", kp.cmd, kp.occ))
 		f2 := func(key, msg string, ex map[string]any) *Failure {
 			return &Failure{Key: key + "|" + killClass(kp.cmd), Msg: msg, Extra: ex, Log: log2, Input: map[string]any{"events": log2}}
+		}
+		_ = pi
+		if k == "" && tv.commit {
+			// Sometimes a further good revision arrives before the next run.
+			if tok, err := w2.commit(true, ""); err == nil {
+				log2 = append(log2, "commit "+tok+" good=true (after the kill)")
+				ex["commit_after_kill"] = true
+			}
 		}
 		if k != "" {
 			if !c.NoteKnown(k + "|" + killClass(kp.cmd)) {
